@@ -164,6 +164,7 @@ pub proof fn lemma_rlp_str_one_item(b: Seq<u8>)
     assert(rlp_str(b) + Seq::<u8>::empty() =~= rlp_str(b));
 }
 /// a list header followed by its payload parses back (payload shorter than 2^32 bytes)
+#[verifier::spinoff_prover]
 pub proof fn lemma_parse_hdr_list(p: Seq<u8>, rest: Seq<u8>)
     requires p.len() < 0x1_0000_0000,
     ensures
@@ -189,6 +190,7 @@ pub proof fn lemma_parse_hdr_list(p: Seq<u8>, rest: Seq<u8>)
     }
 }
 /// parse_hdr only looks at the item: appending bytes after a well-framed item does not change the header
+#[verifier::spinoff_prover]
 pub proof fn lemma_parse_hdr_prefix(s: Seq<u8>, rest: Seq<u8>)
     requires parse_hdr(s) is Some,
     ensures
@@ -270,6 +272,7 @@ pub proof fn lemma_acc_upto_props(m: Map<Seq<u8>, Seq<u8>>, ks: Seq<Seq<u8>>, i:
     }
 }
 /// the drop_last recursion of pairs_rlp_keys agrees with the left-to-right concatenation
+#[verifier::spinoff_prover]
 pub proof fn lemma_pairs_from_agree(m: Map<Seq<u8>, Seq<u8>>, ks: Seq<Seq<u8>>, i: int)
     requires 0 <= i <= ks.len(),
     ensures pairs_rlp_keys(m, ks.subrange(0, i)) + pairs_from(m, ks, i) == pairs_rlp_keys(m, ks),
@@ -293,6 +296,7 @@ pub open spec fn prev_key(ks: Seq<Seq<u8>>, i: int) -> Option<Seq<u8>> {
     if i > 0 { Some(ks[i - 1]) } else { None }
 }
 /// one decoder step on  rlp_str(k) + v + tail
+#[verifier::spinoff_prover]
 pub proof fn lemma_parse_pairs_step(k: Seq<u8>, v: Seq<u8>, tail: Seq<u8>, prev: Option<Seq<u8>>, acc: Map<Seq<u8>, Seq<u8>>)
     requires
         k.len() < 0x1_0000_0000,
@@ -419,6 +423,7 @@ proof fn lemma_record_outer(sig: Seq<u8>, seq: nat, m: Map<Seq<u8>, Seq<u8>>)
     assert(hdr(true, p.len()) + p + Seq::<u8>::empty() =~= r);
 }
 /// inner layer: signature string, sequence number, then the pairs
+#[verifier::spinoff_prover]
 proof fn lemma_record_inner(sig: Seq<u8>, seq: nat, prs: Seq<u8>)
     requires sig.len() < 0x1_0000_0000, seq <= u64::MAX,
     ensures ({
@@ -460,6 +465,7 @@ pub proof fn lemma_record_roundtrip(sig: Seq<u8>, seq: nat, m: Map<Seq<u8>, Seq<
     lemma_parse_pairs_roundtrip(m);
 }
 /// hence the signed content determines sequence number and pairs
+#[verifier::spinoff_prover]
 pub proof fn lemma_content_rlp_injective(s1: nat, m1: Map<Seq<u8>, Seq<u8>>, s2: nat, m2: Map<Seq<u8>, Seq<u8>>)
     requires
         values_ok(m1), values_ok(m2), s1 <= u64::MAX, s2 <= u64::MAX,
